@@ -100,7 +100,8 @@ func compareIPs(x, y []byte) int {
 	addrX, okX := netip.AddrFromSlice(x)
 	addrY, okY := netip.AddrFromSlice(y)
 	if !okX || !okY {
-		panic("unexpected IP address byte slice")
+		// not IP addresses: never equal
+		return -1
 	}
 	return addrX.Unmap().Compare(addrY.Unmap())
 }
@@ -230,7 +231,7 @@ func (c *SCIONClient) measureClockOffsetSCION(ctx context.Context, mtrcs *scionC
 	scionLayer.SrcIA = localAddr.IA
 	srcAddrIP, ok := netip.AddrFromSlice(localAddr.Host.IP)
 	if !ok {
-		panic(errUnexpectedAddrType)
+		return time.Time{}, 0, errUnexpectedAddrType
 	}
 	err = scionLayer.SetSrcAddr(addr.HostIP(srcAddrIP.Unmap()))
 	if err != nil {
@@ -239,7 +240,7 @@ func (c *SCIONClient) measureClockOffsetSCION(ctx context.Context, mtrcs *scionC
 	scionLayer.DstIA = remoteAddr.IA
 	dstAddrIP, ok := netip.AddrFromSlice(remoteAddr.Host.IP)
 	if !ok {
-		panic(errUnexpectedAddrType)
+		return time.Time{}, 0, errUnexpectedAddrType
 	}
 	err = scionLayer.SetDstAddr(addr.HostIP(dstAddrIP.Unmap()))
 	if err != nil {
